@@ -65,6 +65,8 @@ def unit_files_for(prop):
     for p in sorted(glob.glob(os.path.join(VERIF, "contracts", "*.toml"))):
         sc = load_sidecar(p)
         allp = set(sc.get("properties", []))
+        for v in sc.get("lemma_props", {}).values():
+            allp.update(v)
         for f in sc.get("fn", []) + sc.get("arm", []):
             allp.update(f.get("props", []))
         if prop in allp or prop == "ALL":
@@ -110,7 +112,7 @@ def run_v_unit(path, sc, S, outdir, prop, tier, seed, baseline):
     for ob, r in an["obligations"].items():
         if r["fn"].split("::")[-1].startswith("axiom_"):
             continue
-        props = fn_props.get(ob, sc.get("properties", []))
+        props = fn_props.get(ob) or sc.get("lemma_props", {}).get(r["fn"].split("::")[-1]) or sc.get("properties", [])
         if prop != "ALL" and prop not in props:
             continue
         st = r["status"]
